@@ -404,6 +404,12 @@ def main():
             if os.path.exists(jp):
                 cj = json.load(open(jp))
                 rp = os.path.join(d, "crash.json")
+                for fn in sorted(os.listdir(d)):
+                    if fn.startswith("race."):
+                        try:
+                            log += "\n" + open(os.path.join(d, fn), errors="replace").read()[:6000]
+                        except OSError:
+                            pass
                 json.dump({"property": pid, "check": name, "case": cj,
                            "message": ("timeout" if timed else "crash") + " while running this case: " + last_lines(log, 15)}, open(rp, "w"), indent=1)
                 if timed:
